@@ -63,6 +63,8 @@ type twinDef struct {
 	variants func(seed uint64, params map[string]int) (a, b map[string]int)
 	// verdict names property / class / explanation for a mismatch
 	verdict func(a map[string]int, ra, rb *runResult) (prop, class, msg string)
+	// asymmetric: a violation (of any property) reached by the primary run only counts as a difference
+	asymmetric bool
 }
 
 var twins = map[string]twinDef{}
@@ -82,6 +84,22 @@ func execRun(t *testing.T, name string, sc scenario, o runOpts) *runResult {
 	cryptotest.SetGlobalRandom(t, o.seed)
 	ra := runOne(t, sc, oa)
 	ra.Params = pa
+	if td.asymmetric && ra.Violation != nil && ra.Aborted == "" && ra.Leak == "" {
+		// shifted twins: a verdict that only the primary run reaches is itself a difference
+		ob := o
+		ob.params = pb
+		ob.verbose, ob.keepTapes, ob.keepObs = false, false, true
+		cryptotest.SetGlobalRandom(t, o.seed)
+		rb := runOne(t, sc, ob)
+		if rb.Leak != "" {
+			ra.Leak = rb.Leak
+		}
+		if rb.Violation == nil && rb.Aborted == "" {
+			prop, class, msg := td.verdict(pa, ra, rb)
+			ra.Violation = &violation{Prop: prop, Class: class, Msg: fmt.Sprintf("%s: the run ends with the verdict %s/%s (%s), the reference run completes without one", msg, ra.Violation.Prop, ra.Violation.Class, ra.Violation.Msg)}
+		}
+		return ra
+	}
 	if ra.Violation != nil || ra.Aborted != "" || ra.Leak != "" {
 		return ra
 	}
